@@ -374,8 +374,10 @@ Definition predicted_double_close (a b : op) : bool :=
    of that map: "assignment to entry in nil map" panics (dns.go:55-58 Close vs dns.go:141, mdns.go:307) *)
 Definition nils_map (o : op) : list field :=
   match o with DnsClose => [FDnsTable; FDnsMdnsCache] | _ => [] end.
+(* (repaired by /repo: ProcessDNS and putMDNSCache test the map for nil under the handler lock, which Close
+   holds when it drops the maps, before assigning: no operation assigns into a map another one nils) *)
 Definition assigns_map (o : op) : list field :=
-  match o with DnsProcessDNS => [FDnsTable] | DnsProcessMDNS => [FDnsMdnsCache] | _ => [] end.
+  match o with _ => [] end.
 Definition predicted_nil_map (a b : op) : bool :=
   concurrent_allowed a b &&
   (existsb (fun f => existsb (field_eqb f) (assigns_map b)) (nils_map a)
